@@ -64,6 +64,7 @@ type Case struct {
 	Regime int              `json:"regime"`
 	Opts   chaingen.GenOpts `json:"opts"`
 	Evs    []Ev             `json:"evs"`
+	Order  bool             `json:"order,omitempty"` // the manager is configured (chain.WithExpiringContractOrder) with the REVERSED linear order for every block in which several v1 contracts expire
 	Final  bool             `json:"final"` // afterwards: a subscriber from every held index, everyone polls to the tip
 }
 
@@ -124,6 +125,7 @@ type world struct {
 	lsts      map[int]*lst
 	lorder    []int
 	dead      bool // the manager deadlocked: the node is abandoned
+	order     bool // the manager prescribes its own expiring-contract order: its states legitimately differ from the linear replay's
 	blindNow  bool // inside an unobserved stretch: listeners do not read either
 	snap     map[int]*chaingen.Ledger // the ledger a subscriber of this node held when it stood on block x
 	ops      []mgrsim.Op
@@ -131,8 +133,50 @@ type world struct {
 	f8       bool // the C02 judge attributes the node's deviation from the linear replay to the expiry order
 }
 
-func newWorld(t *chaingen.Tree) *world {
-	w := &world{t: t, s: mgrsim.NewSim(t, nil), tw: subs.NewTwin(t), everBest: map[int]bool{0: true}, subs: map[int]*sub{}, stats: map[string]int{}}
+// reversedOrder prescribes, for every block of the tree in which at least two v1 contracts expire,
+// the reverse of the order a linear node uses.
+func reversedOrder(t *chaingen.Tree) map[types.BlockID][]types.FileContractID {
+	tbl := map[types.BlockID][]types.FileContractID{}
+	for _, op := range mgrsim.FinalFlush(t) {
+		store, cm := t.Env.NewManager()
+		var path []types.Block
+		for _, id := range op.Nodes {
+			path = append(path, t.Nodes[id].Block)
+		}
+		if cm.AddBlocks(path) != nil {
+			continue
+		}
+		for _, id := range op.Nodes {
+			if _, bs, ok := store.Block(t.Nodes[id].ID); ok && bs != nil && len(bs.ExpiringFileContracts) > 1 {
+				var ids []types.FileContractID
+				for i := len(bs.ExpiringFileContracts) - 1; i >= 0; i-- {
+					ids = append(ids, bs.ExpiringFileContracts[i].ID)
+				}
+				tbl[t.Nodes[id].ID] = ids
+			}
+		}
+	}
+	return tbl
+}
+
+func newWorldOrdered(t *chaingen.Tree, order bool) *world {
+	w := newWorldWith(t, func(s *mgrsim.Sim) {
+		if order {
+			s.WithManagerOptions(chain.WithExpiringContractOrder(reversedOrder(t)))
+		}
+	})
+	w.order = order
+	return w
+}
+
+func newWorld(t *chaingen.Tree) *world { return newWorldWith(t, nil) }
+
+func newWorldWith(t *chaingen.Tree, prep func(*mgrsim.Sim)) *world {
+	sim := mgrsim.NewSim(t, nil)
+	if prep != nil {
+		prep(sim)
+	}
+	w := &world{t: t, s: sim, tw: subs.NewTwin(t), everBest: map[int]bool{0: true}, subs: map[int]*sub{}, stats: map[string]int{}}
 	w.s.CM.OnReorg(func(ci types.ChainIndex) { w.notes = append(w.notes, ci) })
 	w.s.CM.OnPoolChange(func() { w.poolNotes++ })
 	w.s.Observe(&w.prev)
@@ -517,6 +561,11 @@ func (w *world) judge(sb *sub, max int, rus []chain.RevertUpdate, aus []chain.Ap
 	}
 	for _, au := range aus {
 		aids = append(aids, fmt.Sprint(w.nodeOf(au.State.Index)))
+		// the state an update carries is the state the manager itself holds for that block
+		if cs, ok := w.s.Store.State(au.State.Index.ID); ok && string(mgrsim.EncState(cs)) != string(mgrsim.EncState(au.State)) {
+			w.report("c04-update-state-differs-from-the-managers", "the apply update for block %d (chunk from %v, max %d) carries a state whose encoding differs from the state the manager stores for that block (elements: %d leaves vs %d): the update was not computed from what the manager applied", w.nodeOf(au.State.Index), before, max, au.State.Elements.NumLeaves, cs.Elements.NumLeaves)
+			return
+		}
 	}
 	if !sb.rec {
 		w.coq = append(w.coq, fmt.Sprintf("EPoll %s %d (Some ([%s], [%s], %s))", w.coqIdx(before, 0), coqMax(max), strings.Join(rids, "; "), strings.Join(aids, "; "), w.coqIdx(after, 0)))
@@ -603,7 +652,7 @@ func (w *world) judge(sb *sub, max int, rus []chain.RevertUpdate, aus []chain.Ap
 		if w.prev.Known[n.Idx].State != 2 {
 			// the node's own state at this block is not the linear replay's (expiring-contract order
 			// after a reverted revision: C02's finding): leaf positions are not comparable
-			if !w.differsByExpiryOrder() {
+			if !w.order && !w.differsByExpiryOrder() {
 				w.report("c04-state-differs-from-linear-replay", "the node's state at block %d differs from the linear replay of the same chain and the C02 judge does not attribute it to the expiration-list order", n.Idx)
 				return
 			}
@@ -791,7 +840,7 @@ func sortInts(xs []int) {
 }
 
 func runCase(cs Case, t *chaingen.Tree) *world {
-	w := newWorld(t)
+	w := newWorldOrdered(t, cs.Order)
 	for _, ev := range cs.Evs {
 		switch ev.K {
 		case "op":
@@ -854,13 +903,21 @@ func genCase(r *rng.R, regime int, prunes bool) Case {
 	if r.Chance(1, 4) {
 		cs.Opts.Remine = 2 // sibling branches confirm the same transactions (same ids, other proofs)
 	}
+	if regime%3 == 0 && !prunes && r.Chance(1, 2) {
+		// v1-only network, many short-lived contracts: blocks in which several contracts expire, and a
+		// manager that prescribes its own (reversed) order for them
+		cs.Order = true
+		cs.Opts.Kinds = []string{"v1-form", "v1-form", "v1-form", "v1-transfer", "v1-proof", "v1-revise", "v1-siafund"}
+		cs.Opts.TxPerBlock = 3 + r.Intn(2)
+		cs.Opts.Corruptions, cs.Opts.OnInvalid = 0, 0
+	}
 	t := cs.safeTree()
 	for t == nil {
 		cs.Seed = r.U64()
 		t = cs.safeTree()
 	}
 	plan := mgrsim.GenPlan(rng.New(cs.Seed^0x5bd1e995), t, prunes)
-	w := newWorld(t)
+	w := newWorldOrdered(t, cs.Order)
 	nsub, salt, nl := 0, 0, 0
 	add := func(ev Ev) {
 		cs.Evs = append(cs.Evs, ev)
@@ -1276,6 +1333,10 @@ func run(c *hx.Ctx) {
 		js, _ := json.Marshal(cs)
 		res.Eval(string(js), w.stats["chunks-with-reverts"] > 0 && w.stats["chunks-cut-by-max"] > 0)
 		res.Count("regime:" + chaingen.RegimeNames[cs.Regime])
+		if cs.Order {
+			res.Count("histories-with-a-prescribed-expiring-contract-order")
+			res.CountN("blocks-with-a-prescribed-reversed-order", len(reversedOrder(t)))
+		}
 		if cs.Opts.Remine > 0 {
 			res.Count("histories-over-trees-with-re-mined-transactions")
 		}
